@@ -13,7 +13,7 @@ from .reference import Reference, declared_edges, reachable
 from .sim import BarrierScheduler, FifoScheduler, ScriptedScheduler, make_scheduler
 
 # construct classes currently claimed (extended as defects are repaired); see DESIGN 4.2 / 7
-CLASSES_ALL = ['plain', 'rec', 'rec_nested', 'switch', 'switch_unk', 'switch_shared', 'oneof', 'oneof_nested', 'oneof_shared', 'mix_main', 'mix_shared', 'switch_oneof', 'hub', 'nest3', 'corpus']
+CLASSES_ALL = ['plain', 'rec', 'rec_nested', 'rec_switch', 'switch', 'switch_unk', 'switch_shared', 'oneof', 'oneof_nested', 'oneof_shared', 'mix_main', 'mix_shared', 'switch_oneof', 'hub', 'nest3', 'corpus']
 
 
 def h64(*parts) -> int:
@@ -450,7 +450,8 @@ class C06(Prop):
 
 class C09(Prop):
     id = 'C09'
-    classes = ['switch', 'switch_unk', 'switch_shared', 'mix_main', 'mix_shared', 'switch_oneof', 'hub', 'nest3']
+    classes = ['switch', 'switch_unk', 'switch_shared', 'mix_main', 'mix_shared', 'switch_oneof', 'hub', 'nest3',
+               'rec_switch']
     rule = ('programs with named/unnamed, nested, shared switches; labels derived from the input incl. labels '
             'without a case; oracle: executed bodies subset of the reference demanded set, consumer kwargs = '
             'selected case value, unknown label => error result; non-trivial = program has a switch with >= 2 '
@@ -480,7 +481,7 @@ class C10(Prop):
 
 class C11(Prop):
     id = 'C11'
-    classes = ['rec', 'rec_nested']
+    classes = ['rec', 'rec_nested', 'rec_switch']
     rule = ('one recurrent subgraph over a plain DAG, 0..max+1 requested iterations, default on/off, retries and '
             'failures inside the path; oracle: per-iteration invocation multiset (exact path set re-executed, start '
             'node gets additional_data=data, <= max re-iterations), consumers of the destination only see the final '
